@@ -43,11 +43,11 @@ PROFILE = {"weights": {"timeout": 5, "zero": 1, "wait": 3, "succeed": 2.5, "fail
 
 
 def plan(tier):
-    return {"shards": 4, "timeout": 600} if tier == "quick" else {"shards": 16, "timeout": 3000}
+    return {"shards": 4, "timeout": 600} if tier == "quick" else {"shards": 16, "timeout": 3400}
 
 
 def ncases(tier):
-    return 6000 if tier == "quick" else 15000
+    return 6000 if tier == "quick" else 40000
 
 
 def gen_plan(rng, T, nprocs, nev, t0):
